@@ -62,6 +62,16 @@ def gen(ctx):
                 ops.append(f"inj:{rng.choice(pool)}:{rng.randrange(2)}")
             else:
                 ops.append("con")
+        if rng.random() < 0.10:
+            # idle columns: a key is debounced, then every column is unstrobed, the key released and time passes; then the columns
+            # are strobed again and the key-input register is read
+            k0 = rng.choice(pool)
+            idle = (0x00, 0x00) if ah else (0xFF, 0x0F)
+            ops = [f"kol:{strobe_all[0]}", f"koh:{strobe_all[1]}", f"p:{k0}"] + ["t"] * (pt + rng.randint(1, 3))
+            ops += [f"kol:{idle[0]}", f"koh:{idle[1]}"] + ["t"] * rng.randint(0, 2) + [f"r:{k0}"] + ["t"] * (rt + rng.randint(3, 8))
+            ops += [f"kol:{strobe_all[0]}", f"koh:{strobe_all[1]}", "t", "rd", "t"]
+            lines.append(f"{pt} {rt} {dl} {iv} {ah} {rep} {irq} " + " ".join(ops))
+            continue
         if rng.random() < 0.12:
             # injection-only history: keys are pressed and released through inject only (press when up, release when down),
             # all columns strobed, the queue consumed often: the event grammar must hold for the injected keys too
@@ -121,6 +131,7 @@ def oracle(ctx, name, line, obs, cap, koh_mask, valid=None):
     prev_isr = 0
     since_evt = {}     # code -> strobed scan ticks since its last press / repeat event
     first_rep = {}     # code -> the next repeat is the first one after a press event
+    await_rel = {}     # code -> scan ticks since the release call of a key whose press event was seen (its release event is due)
     inj_only = any(o.startswith("inj:") for o in ops) and not any(o.startswith(("p:", "r:", "rd")) for o in ops)
     if inj_only:
         # well-formed injection history: press only keys that are up, release only keys that are down
@@ -150,6 +161,7 @@ def oracle(ctx, name, line, obs, cap, koh_mask, valid=None):
             dirty.add(int(p[1]))
         if p[0] == "p" and not continue_after:
             c = int(p[1])
+            await_rel.pop(c, None)
             if c not in pressed:
                 pressed.add(c)
                 held[c] = 0
@@ -159,6 +171,8 @@ def oracle(ctx, name, line, obs, cap, koh_mask, valid=None):
                 was_released.discard(c)
         elif p[0] == "r" and not continue_after:
             c = int(p[1])
+            if c in pressed and down.get(c, False):
+                await_rel.setdefault(c, 0)
             if c in pressed:
                 was_released.add(c)
             if c in pressed or c in released_ago:
